@@ -111,7 +111,8 @@ def run_scenario(work, vh, prop, sc, tier, seed, focus):
                          ntags=sc.get("ntags", 3), nrepos=sc.get("nrepos", 2), reconf=[dict(sc_cfg(sc), **r) for r in sc.get("reconf", [])])
     ops_lists, gen = vlib.generate(work, sc["name"], cat, sc["profile"], depth, num, seed, vlib.known_open_names())
     programs = mk_programs(sc, ops_lists)
-    tf, events, dt = vlib.execute(work, vh, sc["name"], programs, sc["stores"], sc["obs"], seed)
+    xvh = sc["harness"](work) if "harness" in sc else vh       # a scenario may need its own build (overlay)
+    tf, events, dt = vlib.execute(work, xvh, sc["name"], programs, sc["stores"], sc["obs"], seed)
     v = vlib.validate(work, sc["name"], tf, sc.get("focus", focus))
     log("scenario %s: %d programs, %d events on %s, %d failing traces (gen %.1fs, exec %.1fs, tlc %.1fs)" % (
         sc["name"], len(programs), events, ",".join(sc["stores"]), len(v["fails"]), gen["wall"], dt, v["tlc"]["wall"]))
@@ -231,6 +232,9 @@ def replay(prop, path, work, seed):
     if rp.get("kind", "history") != "history":
         raise Inconclusive("replay kind %s not handled here" % rp.get("kind"))
     vh = vlib.build_harness(work)
+    prog = rp["program"]
+    if any(o.get("op") == "Tick" for o in prog["ops"]) or (prog.get("cfg") or {}).get("uploadMax", 0) > 0:
+        vh = build_vclock(work)           # histories with expiry / eviction run on the virtual clock
     tf, events, dt = vlib.execute(work, vh, "replay", [rp["program"]], [rp["store"]], rp.get("obs", ["refs", "sess"]), rp.get("seed", seed))
     v = vlib.validate(work, "replay", tf, {prop})
     if v["fails"]:
@@ -369,11 +373,36 @@ def c07(prop, tier, seed, work):
 CHECKS["C07"] = c07
 
 
+def build_vclock(work):
+    """The harness with internal/cache of the CURRENT tree on the virtual clock (rewrite_cache) and the clock exported."""
+    ovf, counts = rewrite_cache(work)
+    with open(ovf) as f:
+        ov = json.load(f)
+    inj = os.path.join(vlib.HARNESS, "inpkg")
+    pkg = os.path.join(vlib.REPO, "internal", "cache")
+    ov["Replace"] = {k: v for k, v in ov["Replace"].items() if not k.endswith("_test.go")}
+    ov["Replace"][os.path.join(pkg, "vclock_api_verif.go")] = os.path.join(inj, "cache", "vclock_api_verif.go")
+    ov["Replace"][os.path.join(vlib.REPO, "verif_vclock.go")] = os.path.join(inj, "olareg", "verif_vclock.go")
+    ovf2 = os.path.join(os.path.dirname(ovf), "overlay-vclock.json")
+    with open(ovf2, "w") as f:
+        json.dump(ov, f)
+    d = work.sub("vclock-build")
+    out = vlib.build_harness(work, tags="verif vclock", overlay=ovf2)
+    dst = os.path.join(d, "vharness-vclock")
+    shutil.copy(out, dst)
+    vlib.build_harness(work)          # restore the plain build at the shared path
+    return dst
+
+
 def c08(prop, tier, seed, work):
     scs = [
         dict(name="sess", profile="sess", contents=["b0", "b1", "b2", "b4"], algs=["sha256", "sha512"], depth=(24, 40), num=(40, 400),
              stores=STORES3, obs=["sess", "disk"], mc_contents=["b1", "b2"], mc_depth=(4, 5)),
     ]
+    # eviction (session limit 1, 2, 3) and expiry (grace period) at any point, on the virtual clock
+    for mx in (1, 2, 3):
+        scs.append(dict(name="sessx%d" % mx, profile="sessx", contents=["b1", "b2"], algs=["sha256"], depth=(30, 44), num=(14, 150),
+                        stores=["mem", "dir"], obs=["sess", "disk"], cfg={"uploadMax": mx}, harness=build_vclock))
     return histories(prop, tier, seed, work, scs, "", "a history is non-trivial if it sends at least one PATCH; distinct = distinct operation sequences",
                      {"UpPatch"})
 
@@ -1229,8 +1258,8 @@ def c11(prop, tier, seed, work):
     episodes = []
     # schedules of the model as it is (the real requests follow them call by call) and of the model without the mutex
     # (adversarial: they interleave the critical sections; the real requests wait there, the scheduler goes on)
-    for fam, lock, num in (("pairs", "TRUE", 150 if quick else 2000), ("triples", "TRUE", 50 if quick else 1000),
-                           ("pairs", "FALSE", 150 if quick else 2000), ("triples", "FALSE", 50 if quick else 1000)):
+    for fam, lock, num in (("pairs", "TRUE", 150 if quick else 500), ("triples", "TRUE", 50 if quick else 250),
+                           ("pairs", "FALSE", 150 if quick else 500), ("triples", "FALSE", 50 if quick else 250)):
         g = vlib.tlc(work, "hd-gen-%s-%s" % (fam, lock), "MCHandlers", HANDLERS_CFG % (lock, fam, "INVARIANT Emit"), simulate="num=%d" % num, depth=120, seed=seed,
                      workers=1, timeout=1200)
         eps = vlib.tlc_prints(g["out"], "EPISODE")
@@ -1238,8 +1267,8 @@ def c11(prop, tier, seed, work):
             raise Inconclusive("MCHandlers generator failed:\n" + g["out"][-2000:])
         episodes += [dict(e, adv=True) for e in eps] if lock == "FALSE" else eps
     nmodel = len(episodes)
-    episodes += [free_episode(s, r) for s, r in FREE_EPISODES] * (2 if quick else 12)
-    x = conc_run(work, vh, episodes, "main", "mem,dir" if quick else "mem,dir,memdir", 1 if quick else 3, seed, burst=4 if quick else 9)
+    episodes += [free_episode(s, r) for s, r in FREE_EPISODES] * (2 if quick else 8)
+    x = conc_run(work, vh, episodes, "main", "mem,dir" if quick else "mem,dir,memdir", 1 if quick else 2, seed, burst=4 if quick else 6)
     log("%d episodes (%d with a TLC schedule), %d runs, %d rejected, %d drift, %d hung (exec %.1fs, tlc %.1fs)" % (len(episodes), nmodel, x["runs"], len(x["rejected"]), len(x["drift"]), x["hung"], x["exec"], x["tlc"]))
     violations = []
     for f in x["v"]["fails"]:
